@@ -54,7 +54,7 @@ pub fn call<T>(ctx: &mut Ctx, api: &str, input_len: usize, input_desc: &dyn Fn()
 
 macro_rules! dec {
     ($ctx:expr, $b:expr, $d:expr, $( $t:ty ),* ) => {
-        $( { let r = call($ctx, concat!("deserialize::<", stringify!($t), ">"), $b.len(), $d, || deserialize::<$t>($b).is_ok()); if r == Some(true) { $ctx.count(concat!("decoded/", stringify!($t))); } } )*
+        $( { let r = call($ctx, concat!("deserialize::<", stringify!($t), ">"), $b.len(), $d, || deserialize::<$t>($b).map(|v| serialize(&v).len()).is_ok()); if r == Some(true) { $ctx.count(concat!("decoded/", stringify!($t))); } } )*
     };
 }
 
@@ -266,9 +266,14 @@ fn mutate_string(r: &mut Rg, s: &str) -> String {
 pub fn run(ctx: &mut Ctx) {
     let sanitizer = matches!(ctx.lane.as_str(), "miri" | "memcheck" | "asan");
     let quick = ctx.quick();
+    let miri = ctx.lane == "miri";
     let scale = move |q: u64, t: u64, s: u64| -> u64 {
-        if sanitizer {
-            s
+        if miri {
+            // the interpreter is ~3 orders of magnitude slower than native code
+            s * 20
+        } else if sanitizer {
+            // valgrind / ASan: 1-2 orders of magnitude
+            s * 400
         } else if quick {
             q
         } else {
@@ -277,8 +282,9 @@ pub fn run(ctx: &mut Ctx) {
     };
 
     // ---- byte decoders on random bytes, repository vectors, generated encodings and their mutants
-    let corpus = crate::corpus::harvest();
-    let n = scale(12_000, 600_000, 40);
+    // (the interpreter would spend minutes scanning the repository for hex literals)
+    let corpus = if miri { vec![vec![0x02u8, 0, 0, 0, 0, 1], vec![0u8; 40]] } else { crate::corpus::harvest() };
+    let n = scale(12_000, 150_000, 40);
     ctx.phase("bytes", n, |ctx, k| {
         let (mut b, origin): (Vec<u8>, &str) = match k % 5 {
             0 => {
@@ -322,7 +328,7 @@ pub fn run(ctx: &mut Ctx) {
 
     // ---- PSET value-level mutations: truncate / extend / empty the value of any pair
     if ffi_ok(ctx) {
-        let n = scale(4_000, 200_000, 12);
+        let n = scale(4_000, 60_000, 12);
         ctx.phase("pset-pair-values", n, |ctx, k| {
             let ps = gp::pset(&mut ctx.rng, if k % 2 == 0 { P(1, 2) } else { P(1, 1) }, 2, 2);
             let b = serialize(&ps);
@@ -378,7 +384,7 @@ pub fn run(ctx: &mut Ctx) {
     }
 
     // ---- scripts and slice parsers
-    let n = scale(12_000, 500_000, 60);
+    let n = scale(12_000, 150_000, 60);
     ctx.phase("scripts-and-slices", n, |ctx, k| {
         let b: Vec<u8> = match k % 4 {
             0 => {
@@ -440,7 +446,7 @@ pub fn run(ctx: &mut Ctx) {
     }
 
     // ---- strings
-    let n = scale(12_000, 500_000, 40);
+    let n = scale(12_000, 150_000, 40);
     ctx.phase("strings", n, |ctx, k| {
         let base: String = match k % 6 {
             0 => {
@@ -502,7 +508,7 @@ pub fn run(ctx: &mut Ctx) {
 
     // ---- fallible operations on structurally valid but semantically arbitrary values
     if ffi_ok(ctx) {
-        let n = scale(2_000, 80_000, 10);
+        let n = scale(2_000, 30_000, 10);
         ctx.phase("operations", n, |ctx, k| {
             let d_tx = TxDials { wit_mask: 0, coinbase: false, exotic_outputs: k % 3 == 0, ..TxDials::default() };
             // 1. Transaction::blind on arbitrary transactions: no marked output, one marked output,
@@ -676,7 +682,7 @@ pub fn run(ctx: &mut Ctx) {
         });
 
         // ---- serde deserializers on mutated own output
-        let n = scale(3_000, 100_000, 6);
+        let n = scale(3_000, 30_000, 6);
         ctx.phase("serde-inputs", n, |ctx, k| {
             let t = gen::tx(&mut ctx.rng, &TxDials::default());
             let js = serde_json::to_string(&t).unwrap_or_default();
